@@ -529,7 +529,7 @@ func init() {
 		}
 		o := []Oracle{oracleC19{}}
 		mainO := AlphaOpts{RespKinds: []string{"ok", "bad"}, CtxOps: []string{"pause", "kill"}, Updates: []CtxUpdate{updTimeout3}, Withdraw: []string{"O1:P1"}, SetW: []string{"O1:W1", "XX:W1"}, // XX owns no binding
-			BindOps: []Action{actDisable("a", "P1", "O1"), actRefund("a", "P1", "O1"), actUpdate("a", "P2", "O2", 0, "p5", 0)}}
+			BindOps: []Action{actDisable("a", "P1", "O1"), actRefund("a", "P1", "O1"), actUpdate("a", "P2", "O2", 0, "p5", 0), actUpdate("a", "P2", "O2", 0, "p1te", 0)}} // p1te: a promotion that ends along the way
 		return []RunSpec{
 			{Name: "life-export-points", Sc: scLife(defaultParams(), []Template{tOne, tRep2, tPoor}, mainO, 6+d, 4, 2), Oracles: o, Post: genesisPost},
 			{Name: "fees-export-points", Sc: scFees(paramSet("0.1", "0.001"), false, 5+d, 3, 3), Oracles: o, Post: genesisPost},
